@@ -68,36 +68,41 @@ type deferRec struct {
 }
 
 type frame struct {
-	vc          *VC
-	fn          *ssa.Function
-	id          string
-	namePfx     string // obligation name prefix
-	vals        map[ssa.Value]TV
-	lvs         map[ssa.Value]*LV
-	depth       int
-	contract    *FuncC
-	top         bool
-	loops       map[*ssa.BasicBlock]*loopInfo
-	out         map[*ssa.BasicBlock]*bstate
-	edge        map[[2]int]string // (block index, succ slot) -> condition
-	rets        []retInfo
-	locals      []*localAlloc
-	entry       *bstate
-	params      map[string]TV
-	defers      []*deferRec
-	srcText     map[token.Pos]string
-	callOrd     map[string]int
-	errCalls    []errCall // for noswallow
-	headVars    map[*ssa.BasicBlock]map[string]TV
-	variant0    map[*ssa.BasicBlock]string
-	caller      *frame
-	boundDepth  int
-	loopAlloc   map[*ssa.BasicBlock]string
-	ordOf       map[ssa.Instruction]int
-	escSites    map[ssa.Instruction][]string
-	fvBind      map[*ssa.FreeVar]TV
-	csUsed      map[*CallsiteC]bool
-	noInvAssume bool // >0 while translating under a binder (quantifier, spec definition)
+	vc        *VC
+	fn        *ssa.Function
+	id        string
+	namePfx   string // obligation name prefix
+	vals      map[ssa.Value]TV
+	lvs       map[ssa.Value]*LV
+	depth     int
+	contract  *FuncC
+	top       bool
+	loops     map[*ssa.BasicBlock]*loopInfo
+	out       map[*ssa.BasicBlock]*bstate
+	edge      map[[2]int]string // (block index, succ slot) -> condition
+	rets      []retInfo
+	locals    []*localAlloc
+	entry     *bstate
+	params    map[string]TV
+	defers    []*deferRec
+	srcText   map[token.Pos]string
+	callOrd   map[string]int
+	errCalls  []errCall // for noswallow
+	preserved []snap
+	// map range loops of the top-level function: ghost visited sets
+	visitedName    map[*ssa.Range]string
+	visitedKeySort map[string]string
+	headVars       map[*ssa.BasicBlock]map[string]TV
+	variant0       map[*ssa.BasicBlock]string
+	caller         *frame
+	boundDepth     int
+	curSelf        *TV
+	loopAlloc      map[*ssa.BasicBlock]string
+	ordOf          map[ssa.Instruction]int
+	escSites       map[ssa.Instruction][]string
+	fvBind         map[*ssa.FreeVar]TV
+	csUsed         map[*CallsiteC]bool
+	noInvAssume    bool // >0 while translating under a binder (quantifier, spec definition)
 }
 
 type errCall struct {
